@@ -13,12 +13,12 @@ PY = os.environ.get("PYVC_REPLAY_PYTHON", "/venv/bin/python")
 DRIVERS: dict[str, list[list[str]]] = {
     "C01": [["drivers/framings.py"], ["drivers/streams.py", "--mode", "roundtrip", "--max-len", "5"], ["drivers/streams.py", "--mode", "directed"], ["drivers/streams.py", "--max-len", "5"]],
     "C02": [["drivers/framings.py"], ["drivers/streams.py", "--mode", "directed"], ["drivers/streams.py", "--max-len", "5"]],
-    "C03": [["drivers/endpoints.py", "--max-len", "5", "--faults"], ["drivers/endpoints.py", "--max-len", "4", "--asynchronous"]],
-    "C10": [["drivers/endpoints.py", "--max-len", "4", "--asynchronous"], ["drivers/endpoints.py", "--max-len", "5", "--faults"]],
+    "C03": [["drivers/asyncio_reader.py"], ["drivers/endpoints.py", "--max-len", "5", "--faults"], ["drivers/endpoints.py", "--max-len", "4", "--asynchronous"]],
+    "C10": [["drivers/asyncio_reader.py"], ["drivers/endpoints.py", "--max-len", "4", "--asynchronous"], ["drivers/endpoints.py", "--max-len", "5", "--faults"]],
     "C04": [["drivers/sendpaths.py"], ["drivers/tls_send.py"]],
     "C12": [["drivers/tls_send.py"], ["drivers/fair_lock.py"]],
     "C11": [["drivers/budget.py"]],
-    "C05": [["drivers/framings.py", "--oneshot"]],
+    "C05": [["drivers/framings.py", "--oneshot"], ["drivers/asyncio_datagram.py"]],
     "C06": [["drivers/framings.py"], ["drivers/framings.py", "--oneshot"], ["drivers/streams.py", "--max-len", "5"], ["drivers/streams.py", "--mode", "directed"]],
     "C20": [["drivers/flow_control.py"]],
     "C19": [["drivers/connect_race.py"]],
